@@ -16,6 +16,8 @@ func TestC07(t *testing.T) {
 	p.MinBlocks, p.MaxBlocks = 8, 30
 	p.Alt, p.PAlt = govHeavyProfile(), 35
 	p.W["deployp"], p.W["callp"] = 4, 10
+	p.PowerTies = true
+	p.Alt.PowerTies = true
 	runCheck(t, "C07", p, func(src Source, st *Stats) *Outcome {
 		if gs, ok := src.(*GenSource); ok {
 			gs.OnEndBlock = func(w *World, b *Block) {
